@@ -127,11 +127,16 @@ def outcomes_if_equal_onset_rows_are_permuted(rows, limit=4000):
     states = {(frozenset(), ())}
     for t in sorted(set(plain) | set(delayed)):
         blocks = plain.get(t, []) + delayed.get(t, [])
-        keys = [n.casefold() for b in blocks for _, n in b]
-        if len(set(keys)) == len(keys) or len(blocks) == 1:
+        keysets = [{n.casefold() for _, n in b} for b in blocks]
+        # only blocks sharing a name with another block interact; the others may stay where they are
+        coll = [i for i, ks in enumerate(keysets) if any(ks & other for j, other in enumerate(keysets) if j != i)]
+        if not coll:
             orders = [blocks]
+        elif len(coll) > 7:
+            return None
         else:
-            orders = list(itertools.permutations(blocks)) if len(blocks) <= 6 else [blocks, blocks[::-1]]
+            rest = [b for i, b in enumerate(blocks) if i not in coll]
+            orders = [[blocks[i] for i in perm] + rest for perm in itertools.permutations(coll)]
         new_states = set()
         for opened, reps in states:
             for order in orders:
